@@ -157,6 +157,8 @@ theorem getElem?_set_cases {α} {l : List α} {k j : Nat} {x y : α} (h : (l.set
   · rw [List.getElem?_set_ne hk] at h
     exact Or.inr h
 
+def implStatic (i : Impl) : Str × Bool := (i.address, i.sendIds)
+
 /-! ## a request: the adapters write to the fresh header object only -/
 
 theorem set_getElem?_self {α} {l : List α} {w : Nat} {d : α} (h : l[w]? = some d) : l.set w d = l := by
@@ -231,9 +233,9 @@ structure ReqEffect (H H' : Heap) : Prop where
   conns : H'.conns = H.conns
   callers : H'.callers = H.callers
   datas : H'.datas = H.datas
-  dicts : H'.dicts = H.dicts ∨ ∃ d', H'.dicts = H.dicts ++ [d']
-  impls : H'.impls = H.impls ∨
-    ∃ r imp, H.impls[r]? = some imp ∧ H'.impls = H.impls.set r { imp with ctr := imp.ctr + 1 }
+  dicts : ∃ y, H'.dicts = H.dicts ++ y
+  implsLen : H'.impls.length = H.impls.length
+  impls : ∀ i : Nat, (H'.impls[i]?).map implStatic = (H.impls[i]?).map implStatic
 
 theorem connView_impl {H : Heap} {c : Nat} {cn : Conn} {impl : Impl} {as : List Adapter}
     (hv : connView H c = some (cn, impl, as)) : H.impls[cn.impl]? = some impl := by
@@ -245,10 +247,10 @@ theorem connView_impl {H : Heap} {c : Nat} {cn : Conn} {impl : Impl} {as : List 
     · cases hv
 
 theorem request_spec (H : Heap) (c : Nat) (args : Args) :
-    (request H c args).2 = requestPure H c args ∧ ReqEffect H (request H c args).1 ∧
-    ((∃ e, (request H c args).2 = .error e) → (request H c args).1.impls = H.impls) := by
-  have same : ReqEffect H H := ⟨rfl, rfl, rfl, rfl, rfl, rfl, Or.inl rfl, Or.inl rfl⟩
-  unfold request requestPure
+    (requestFlat H c args).2 = requestPure H c args ∧ ReqEffect H (requestFlat H c args).1 ∧
+    ((∃ e, (requestFlat H c args).2 = .error e) → (requestFlat H c args).1.impls = H.impls) := by
+  have same : ReqEffect H H := ⟨rfl, rfl, rfl, rfl, rfl, rfl, ⟨[], by simp⟩, rfl, fun _ => rfl⟩
+  unfold requestFlat requestPure
   cases hv : connView H c with
   | none => exact ⟨rfl, same, fun _ => rfl⟩
   | some v =>
@@ -272,7 +274,7 @@ theorem request_spec (H : Heap) (c : Nat) (args : Args) :
           rw [ha] at hs
           obtain ⟨d', hs⟩ := hs
           simp only [hs]
-          refine ⟨?_, ⟨?_, ?_, ?_, ?_, ?_, ?_, Or.inr ⟨d', ?_⟩, Or.inl ?_⟩, fun _ => ?_⟩ <;> first | rfl | simp
+          refine ⟨?_, ⟨?_, ?_, ?_, ?_, ?_, ?_, ⟨[d'], ?_⟩, ?_, fun _ => ?_⟩, fun _ => ?_⟩ <;> first | rfl | simp
         | ok ra =>
           rw [ha] at hs
           simp only [hs]
@@ -285,21 +287,159 @@ theorem request_spec (H : Heap) (c : Nat) (args : Args) :
               (respFold as (decodeResp args.raw args.resp))).genId with
           | none =>
             simp only []
-            refine ⟨?_, ⟨?_, ?_, ?_, ?_, ?_, ?_, Or.inr ⟨finalHeaders impl ra (finalBody as body), ?_⟩, Or.inl ?_⟩, ?_⟩
+            refine ⟨?_, ⟨?_, ?_, ?_, ?_, ?_, ?_, ⟨[finalHeaders impl ra (finalBody as body)], ?_⟩, ?_, fun _ => ?_⟩, ?_⟩
             all_goals first | rfl | simp
           | some g =>
             simp only []
-            refine ⟨?_, ⟨?_, ?_, ?_, ?_, ?_, ?_, Or.inr ⟨finalHeaders impl ra (finalBody as body), ?_⟩,
-              Or.inr ⟨cn.impl, impl, connView_impl hv, ?_⟩⟩, ?_⟩
+            have himp := connView_impl hv
+            refine ⟨?_, ⟨?_, ?_, ?_, ?_, ?_, ?_, ⟨[finalHeaders impl ra (finalBody as body)], ?_⟩, ?_, fun i => ?_⟩, ?_⟩
             all_goals first | rfl | simp
+            by_cases hic : cn.impl = i
+            · subst hic
+              obtain ⟨hlt, hget⟩ := List.getElem?_eq_some_iff.mp himp
+              simp [hlt, implStatic, hget]
+            · rw [List.getElem?_set_ne hic]
 
-theorem request_effect (H : Heap) (c : Nat) (args : Args) : ReqEffect H (request H c args).1 :=
+theorem requestFlat_effect (H : Heap) (c : Nat) (args : Args) : ReqEffect H (requestFlat H c args).1 :=
   (request_spec H c args).2.1
+
+theorem ReqEffect.refl (H : Heap) : ReqEffect H H := ⟨rfl, rfl, rfl, rfl, rfl, rfl, ⟨[], by simp⟩, rfl, fun _ => rfl⟩
+
+theorem ReqEffect.trans {A B C : Heap} (h1 : ReqEffect A B) (h2 : ReqEffect B C) : ReqEffect A C := by
+  obtain ⟨y1, hy1⟩ := h1.dicts
+  obtain ⟨y2, hy2⟩ := h2.dicts
+  exact ⟨h2.lists.trans h1.lists, h2.userLists.trans h1.userLists, h2.userDicts.trans h1.userDicts,
+    h2.conns.trans h1.conns, h2.callers.trans h1.callers, h2.datas.trans h1.datas,
+    ⟨y1 ++ y2, by rw [hy2, hy1, List.append_assoc]⟩, h2.implsLen.trans h1.implsLen,
+    fun i => (h2.impls i).trans (h1.impls i)⟩
+
+/-- bookkeeping fields (`fired`, `lastSent`) do not take part -/
+theorem ReqEffect.of_fields {A B : Heap} (hl : B.lists = A.lists) (hul : B.userLists = A.userLists)
+    (hud : B.userDicts = A.userDicts) (hc : B.conns = A.conns) (hk : B.callers = A.callers) (hda : B.datas = A.datas)
+    (hd : B.dicts = A.dicts) (hi : B.impls = A.impls) : ReqEffect A B :=
+  ⟨hl, hul, hud, hc, hk, hda, ⟨[], by simp [hd]⟩, by rw [hi], fun _ => by rw [hi]⟩
+
+theorem fireNested_effect (H : Heap) (t : Nat) (fo : Bool) (id : Nat) : ReqEffect H (fireNested H t fo id).1 := by
+  unfold fireNested
+  split
+  · exact ReqEffect.refl H
+  · have h0 : ReqEffect H (if fo = true then { H with fired := id :: H.fired } else H) := by
+      split
+      · exact ReqEffect.of_fields rfl rfl rfl rfl rfl rfl rfl rfl
+      · exact ReqEffect.refl H
+    simp only []
+    split
+    · split
+      · exact h0
+      · have h1 := requestFlat_effect (if fo = true then { H with fired := id :: H.fired } else H) t nestedArgs
+        split
+        · rename_i H2 s heq
+          have : H2 = (requestFlat (if fo = true then { H with fired := id :: H.fired } else H) t nestedArgs).1 := by
+            rw [heq]
+          subst this
+          split <;> exact h0.trans h1
+        · rename_i H2 e heq
+          have : H2 = (requestFlat (if fo = true then { H with fired := id :: H.fired } else H) t nestedArgs).1 := by
+            rw [heq]
+          subst this
+          exact h0.trans h1
+    · exact h0
+
+theorem firePre_effect (ra0 : RA) (H : Heap) (pre rest : List Adapter) (acc : List Str) :
+    ReqEffect H (firePre ra0 H pre rest acc).1 := by
+  induction rest generalizing H pre acc with
+  | nil => exact ReqEffect.refl H
+  | cons a rest ih =>
+    unfold firePre
+    split
+    · rename_i t fo id
+      split
+      · exact ReqEffect.refl H
+      · have h1 := fireNested_effect H t fo id
+        split
+        · rename_i H1 u heq
+          have : H1 = (fireNested H t fo id).1 := by rw [heq]
+          subst this; exact h1.trans (ih _ _ _)
+        · rename_i H1 u e heq
+          have : H1 = (fireNested H t fo id).1 := by rw [heq]
+          subst this; exact h1
+    · exact ih _ _ _
+
+theorem firePost_effect (H : Heap) (rev : List Adapter) (v : J) (acc : List Str) :
+    ReqEffect H (firePost H rev v acc).1 := by
+  induction rev generalizing H v acc with
+  | nil => exact ReqEffect.refl H
+  | cons a rest ih =>
+    unfold firePost
+    split
+    · rename_i t fo id
+      have h1 := fireNested_effect H t fo id
+      split
+      · rename_i H1 u heq
+        have : H1 = (fireNested H t fo id).1 := by rw [heq]
+        subst this; exact h1.trans (ih _ _ _)
+      · rename_i H1 u e heq
+        have : H1 = (fireNested H t fo id).1 := by rw [heq]
+        subst this; exact h1
+    · split
+      · exact ih _ _ _
+      · exact ReqEffect.refl H
+
+theorem ReqEffect.lastSent {A B : Heap} (h : ReqEffect A B) (n : Nat) : ReqEffect A { B with lastSent := n } :=
+  h.trans (ReqEffect.of_fields rfl rfl rfl rfl rfl rfl rfl rfl)
+
+/-- a request with nesting adapters is a sequence of complete flat requests on one world -/
+theorem request_effect (H : Heap) (c : Nat) (args : Args) : ReqEffect H (request H c args).1 := by
+  have flat : ReqEffect H (match requestFlat H c args with
+      | (H1, .ok s) => (({ H1 with lastSent := 1 } : Heap), (Except.ok s : Except Err Sent))
+      | (H1, .error e) => ({ H1 with lastSent := 0 }, .error e)).1 := by
+    have h1 := requestFlat_effect H c args
+    split
+    · rename_i H1 s heq
+      have : H1 = (requestFlat H c args).1 := by rw [heq]
+      subst this; exact h1.lastSent 1
+    · rename_i H1 e heq
+      have : H1 = (requestFlat H c args).1 := by rw [heq]
+      subst this; exact h1.lastSent 0
+  unfold request
+  split
+  · rename_i cn impl as hd _ _
+    split
+    · exact flat
+    · have hp := firePre_effect { path := args.path, headers := copyHeaders hd } H [] as []
+      split
+      · rename_i H1 e pre heq
+        have : H1 = (firePre { path := args.path, headers := copyHeaders hd } H [] as []).1 := by rw [heq]
+        subst this; exact hp.lastSent _
+      · rename_i H1 pre x heq
+        have : H1 = (firePre { path := args.path, headers := copyHeaders hd } H [] as []).1 := by rw [heq]
+        subst this
+        have hf := requestFlat_effect (firePre { path := args.path, headers := copyHeaders hd } H [] as []).1 c args
+        split
+        · rename_i H2 e heq2
+          have : H2 = (requestFlat (firePre { path := args.path, headers := copyHeaders hd } H [] as []).1 c args).1 := by
+            rw [heq2]
+          subst this; exact (hp.trans hf).lastSent _
+        · rename_i H2 s heq2
+          have : H2 = (requestFlat (firePre { path := args.path, headers := copyHeaders hd } H [] as []).1 c args).1 := by
+            rw [heq2]
+          subst this
+          have hq := firePost_effect (requestFlat (firePre { path := args.path, headers := copyHeaders hd } H [] as []).1 c args).1
+            as.reverse (decodeResp args.raw args.resp) []
+          split
+          · rename_i H3 post x2 heq3
+            have : H3 = (firePost (requestFlat (firePre { path := args.path, headers := copyHeaders hd } H [] as []).1 c args).1
+              as.reverse (decodeResp args.raw args.resp) []).1 := by rw [heq3]
+            subst this; exact ((hp.trans hf).trans hq).lastSent _
+          · rename_i H3 e post heq3
+            have : H3 = (firePost (requestFlat (firePre { path := args.path, headers := copyHeaders hd } H [] as []).1 c args).1
+              as.reverse (decodeResp args.raw args.resp) []).1 := by rw [heq3]
+            subst this; exact ((hp.trans hf).trans hq).lastSent _
+  · exact flat
 
 /-- a heap that differs only in the content of lists / dicts / counters of equal length, keeps `Inv` -/
 theorem Inv.ofEffect {H H' : Heap} (hi : Inv H) (e : ReqEffect H H') : Inv H' := by
-  have hil : H'.impls.length = H.impls.length := by
-    rcases e.impls with h | ⟨r, imp, _, h⟩ <;> rw [h] <;> simp
+  have hil : H'.impls.length = H.impls.length := e.implsLen
   constructor
   · intro i c h
     rw [e.conns] at h
@@ -554,8 +694,6 @@ theorem run_inv {H : Heap} (hi : Inv H) (ops : List Op) : Inv (run H ops) := by
 def viewCore (H : Heap) (c : Nat) : Option (Conn × Str × Bool × List Adapter) :=
   (connView H c).map fun v => (v.1, v.2.1.address, v.2.1.sendIds, v.2.2)
 
-def implStatic (i : Impl) : Str × Bool := (i.address, i.sendIds)
-
 theorem viewCore_congr {H H' : Heap} {c : Nat} (hc : H'.conns[c]? = H.conns[c]?)
     (hl : ∀ cn, H.conns[c]? = some cn → H'.lists[cn.alist]? = H.lists[cn.alist]?)
     (hm : ∀ cn, H.conns[c]? = some cn →
@@ -596,14 +734,7 @@ theorem viewCore_ofEffect {H H' : Heap} (e : ReqEffect H H') (c : Nat) : viewCor
   · rw [e.conns]
   · intro cn _; rw [e.lists]
   · intro cn _
-    rcases e.impls with h | ⟨r, imp, hr, h⟩
-    · rw [h]
-    · rw [h]
-      by_cases hrc : r = cn.impl
-      · subst hrc
-        obtain ⟨hlt, hget⟩ := List.getElem?_eq_some_iff.mp hr
-        simp [hlt, implStatic, hget]
-      · rw [List.getElem?_set_ne hrc]
+    exact e.impls cn.impl
 
 theorem viewCore_request (H : Heap) (c' : Nat) (args : Args) (c : Nat) :
     viewCore (request H c' args).1 c = viewCore H c :=
